@@ -375,6 +375,12 @@ func (w *world) plain(rawURI string, rs reqSpec, rng *mrand.Rand) M {
 				M{"class": obs["class"], "calls": calls, "token": tok.id, "jti": tok.jti != "", "secondsToExpiry": tok.exp - now, "instance": w.cur, "note": rs.note}, w.replay())
 		}
 	}
+	if own && fresh && !special && tok.exp-now > int64(w.grace) && !w.refDomainOK(tok.email) && (len(w.roles) == 0 || w.refRolesOK(tok)) && obs["class"] == "status" && obs["code"] == 403 {
+		// the callback admitted this identity (the login completed, cookies and all), and the very session it established is
+		// turned away: whichever of the two is right, an established session does not continue to work
+		T.oracle("C04", "a session established by a completed login is refused on later requests (the e-mail gate at login and the one on each request disagree)",
+			M{"email": fmt.Sprint(tok.email), "allowed_domains": w.domains, "token": tok.id}, w.replay())
+	}
 	if wasLoggedOut && !special && !w.loggedIn[b] && !w.tampered[b] {
 		T.stat("handler.c11-after-logout-requests")
 		if obs["class"] == "forward" {
@@ -439,7 +445,7 @@ func (w *world) randomRefreshAnswer(rng *mrand.Rand) *tokenAnswer {
 		t := w.mintWith(o, rng)
 		return &tokenAnswer{kind: "ok", idToken: t.raw}
 	case k == 8:
-		return &tokenAnswer{kind: "invalid_grant", desc: "refresh token revoked"}
+		return &tokenAnswer{kind: "invalid_grant", desc: "refresh token revoked", verbose: rng.Intn(2) == 0}
 	case k == 9:
 		return &tokenAnswer{kind: []string{"500", "malformed", "neterr", "invalid_client"}[rng.Intn(4)]}
 	case k == 10:
@@ -972,6 +978,24 @@ func (w *world) scripted(prop string, sc int, rng *mrand.Rand) {
 	switch prop {
 	case "C03":
 		w.pkceLax = sc%3 == 1 // some providers accept a code_challenge and never check the verifier: the binding is the middleware's duty
+		if sc%4 == 1 { // the issued state in another spelling (it is a UUID: case, URN form, braces, no hyphens, padding): not the state issued
+			w.visit("/respelled", reqSpec{note: "initiate"})
+			if ir := w.lastInit[w.b]; ir != nil {
+				st := ir.state
+				for _, v := range []string{strings.ToUpper(st), "urn:uuid:" + st, "{" + st + "}", strings.ReplaceAll(st, "-", ""), st + " ", " " + st, st + "\x00", "\"" + st + "\"", strings.ToUpper(st[:8]) + st[8:]}[sc/4%3*3:][:3] {
+					if v == st {
+						continue
+					}
+					r := w.callback(v, w.authorize(ir), w.randomTokOpts(rng, true), "", reqSpec{note: "callback with the issued state in another spelling"}, rng)
+					if r.ok {
+						T.oracle("C03", "login completed although the state presented is not the state issued (another spelling of it)", M{"presented": v, "issued": st}, w.replay())
+					}
+				}
+				T.stat("handler.callback.respelled-state")
+				r := w.callback(st, w.authorize(ir), w.randomTokOpts(rng, true), "", reqSpec{note: "own state and code after the respelled attempts"}, rng)
+				_ = r
+			}
+		}
 		switch sc % 6 {
 		case 0: // callback before any initiation, with and without parameters
 			w.callback("", nil, tokOpts{}, "", reqSpec{note: "callback before any initiation, no parameters"}, rng)
@@ -1097,6 +1121,12 @@ func (w *world) scripted(prop string, sc int, rng *mrand.Rand) {
 		o.nbf = sc%3 == 0
 		o.blob = []int{0, 300, 3000, 9000, 40000}[sc%5]
 		o.expIn = []time.Duration{time.Hour, 3 * time.Hour, 20 * time.Hour}[sc%3]
+		if len(w.domains) > 0 && sc%3 == 1 {
+			// the provider spells the address its own way (case, surrounding blanks): whatever the deployment makes of it at login, the
+			// session that login establishes keeps working - or there is none
+			o.email = []interface{}{"Jane.Doe@Example.COM", "user@EXAMPLE.com", "user@example.com ", " user@example.com", "USER@EXAMPLE.COM", "user@Corp.Test"}[sc/3%6]
+			T.stat("handler.c04-address-spellings")
+		}
 		if sc%7 == 3 { // instance replaced between initiation and callback
 			w.visit("/start", reqSpec{note: "initiate"})
 			w.addInstance()
@@ -1307,7 +1337,15 @@ func (w *world) scripted(prop string, sc int, rng *mrand.Rand) {
 		for i := 0; i < 4; i++ {
 			mk := markerPool[rng.Intn(len(markerPool))]
 			q := url.Values{}
-			switch rng.Intn(6) {
+			switch rng.Intn(8) {
+			case 6: // the other parameters of an OAuth error response (RFC 6749 4.1.2.1): error_uri, as an absolute URL carrying markup
+				q.Set("error", "access_denied")
+				q.Set("error_uri", []string{"https://idp.test/help?code=AADSTS50105&trace=" + mk, "https://idp.test\"onmouseover=\"verif-marker/help", "https://idp.test/help#" + mk, "javascript:verif-marker//" + mk}[rng.Intn(4)])
+			case 7:
+				q.Set("error", "server_error")
+				q.Set("error_description", "see the link")
+				q.Set("error_uri", "https://idp.test/help?trace=" + mk)
+				q.Set("state", mk)
 			case 0:
 				q.Set("error", "access_denied")
 				q.Set("error_description", mk)
@@ -1551,7 +1589,7 @@ func (w *world) refreshSweep(kind int, rng *mrand.Rand, accept string) {
 	case 7:
 		a = &tokenAnswer{kind: "ok", idToken: mk(func(o *tokOpts) { o.expIn = -time.Hour }).raw}
 	case 8:
-		a = &tokenAnswer{kind: "invalid_grant", desc: "revoked"}
+		a = &tokenAnswer{kind: "invalid_grant", desc: "revoked", verbose: (kind/12)%2 == 1}
 	case 9:
 		a = &tokenAnswer{kind: []string{"500", "malformed", "neterr", "invalid_client"}[rng.Intn(4)]}
 	case 10:
